@@ -17,7 +17,7 @@ from .eqlworld import index_of
 PROPERTY = "C13"
 LEVEL = "model_checking"
 
-CREATE = ["T", "Sub", "Other", "Falsy"]
+CREATE = ["T", "Sub", "Other", "Falsy", "Diamond"]
 QUERY = ["T", "Sub"]
 
 
@@ -115,7 +115,7 @@ def cases(tier, seed):
 def describe(tier):
     L = 4 if tier == "quick" else 6
     return dict(
-        rule="histories of %d operations chosen by bounded symbolic choices from {create T / Sub(T) / Other / Falsy(T) (an instance whose truth value is False), drop the program's reference to instance i, gc.collect(), "
+        rule="histories of %d operations chosen by bounded symbolic choices from {create T / Sub(T) / Other / Falsy(T) (an instance whose truth value is False) / Diamond(Sub, Sub2) (reachable from T over two inheritance paths), drop the program's reference to instance i, gc.collect(), "
         "query T / Sub with an(entity(let(type, None))), declare such a query now and evaluate it at the end of the history, SymbolGraph clear + re-create}, followed by a query of every type; run on the REAL SymbolGraph, rustworkx graph, "
         "weakref and gc; id() as seen by symbol_graph.py is a nondeterministic allocator (any value not used by a live object, in particular the id of a dead one). "
         "After every query: the result multiset equals the harness's own weak-reference census of live instances of the type and its subclasses. "
